@@ -1,7 +1,9 @@
 /-
 Lemmas/SpliceLemmas.lean — the splicing model computes the intended rows.
+(Mathlib-free parts of the proofs: Lemmas/SpliceAux.lean, Lemmas/SpliceSpec.lean.)
 -/
 import AurelVerif.Lemmas.Stencil
+import AurelVerif.Lemmas.SpliceSpec
 import AurelVerif.Gen.Stencils
 
 namespace AurelVerif.SpliceLemmas
@@ -10,36 +12,162 @@ open AurelVerif.Splice AurelVerif.StencilLemmas AurelVerif.Gen.Stencils
 theorem onesided_spec_lemma {α : Type} (s : Scheme) (p : Nat) (hs : shapesOK s p = true)
     (f : List α) (N : Nat) (hf : f.length = N) (hN : 3 * s.maskLen ≤ N) :
     d3Onesided s f N = (List.range N).mapM (fun i => directRow (pickOnesided s N i) f i)
-    ∧ ∀ i < N, (directRow (pickOnesided s N i) f i).isSome := by
-  sorry
+    ∧ ∀ i < N, (directRow (pickOnesided s N i) f i).isSome :=
+  onesided_spec_aux s p hs f N hf hN
 
 theorem periodic_spec_lemma {α : Type} (s : Scheme) (p : Nat) (hs : shapesOK s p = true)
     (f : List α) (N : Nat) (hf : f.length = N) (hm : 1 ≤ s.maskLen) (hN : s.maskLen ≤ N) :
     d3Periodic s f N = (List.range N).mapM (fun i => wrapRow s.cen f N i)
-    ∧ ∀ i < N, (wrapRow s.cen f N i).isSome := by
-  sorry
+    ∧ ∀ i < N, (wrapRow s.cen f N i).isSome :=
+  periodic_spec_aux s p hs f N hf hm hN
 
 theorem symmetric_spec_lemma {α : Type} (s : Scheme) (p : Nat) (hs : shapesOK s p = true)
     (f : List α) (N : Nat) (hf : f.length = N) (hm : 1 ≤ s.maskLen) (hN : s.maskLen + 1 ≤ N) :
     d3Symmetric s f N = (List.range N).mapM (fun i => reflRow s.cen f N i)
-    ∧ ∀ i < N, (reflRow s.cen f N i).isSome := by
-  sorry
+    ∧ ∀ i < N, (reflRow s.cen f N i).isSome :=
+  symmetric_spec_aux s p hs f N hf hm hN
+
+theorem evalLin_nil {K : Type} [Field K] : evalLin ([] : Lin K) = 0 := rfl
+
+theorem evalLin_cons {K : Type} [Field K] (ca : Rat × K) (row : Lin K) :
+    evalLin (ca :: row) = ((ca.1 : ℚ) : K) * ca.2 + evalLin row := by
+  simp [evalLin]
+
+/-- the value of a `directRow` on a sampled function is the stencil applied to
+the function shifted to the row's base point. -/
+theorem evalLin_directRow {K : Type} [Field K] (st : Stencil) (G : Nat → K) (N i : Nat)
+    (g : Int → K) (hg : ∀ k : Int, 0 ≤ (i : Int) + k → g k = G ((i : Int) + k).toNat)
+    (row : Lin K) (h : directRow st ((List.range N).map G) i = some row) :
+    evalLin row = evalSt st g := by
+  induction st generalizing row with
+  | nil =>
+    simp [directRow] at h
+    subst h; rfl
+  | cons kc st ih =>
+    unfold directRow at h
+    rw [mapM_cons_opt] at h
+    by_cases h0 : 0 ≤ (i : Int) + kc.1
+    · rw [if_pos h0] at h
+      cases hget : ((List.range N).map G)[((i : Int) + kc.1).toNat]? with
+      | none => rw [hget] at h; simp at h
+      | some a =>
+        have hrest : ∃ rest, directRow st ((List.range N).map G) i = some rest ∧ row = (kc.2, a) :: rest := by
+          rw [hget] at h
+          unfold directRow
+          cases hr : st.mapM (fun kc =>
+              if 0 ≤ (i : Int) + kc.1 then
+                (((List.range N).map G)[((i : Int) + kc.1).toNat]?).map (fun a => (kc.2, a))
+              else none) with
+          | none => rw [hr] at h; simp at h
+          | some rest =>
+            rw [hr] at h
+            simp at h
+            exact ⟨rest, rfl, h.symm⟩
+        obtain ⟨rest, hrest, rfl⟩ := hrest
+        rw [evalLin_cons, evalSt_cons, ih rest hrest]
+        have ha : a = g kc.1 := by
+          rw [hg kc.1 h0]
+          rw [List.getElem?_map] at hget
+          cases hrg : (List.range N)[((i : Int) + kc.1).toNat]? with
+          | none => rw [hrg] at hget; simp at hget
+          | some j =>
+            rw [hrg] at hget
+            simp at hget
+            rw [List.getElem?_eq_some_iff] at hrg
+            obtain ⟨hlt, hj⟩ := hrg
+            rw [List.getElem_range] at hj
+            rw [hj, hget]
+        rw [ha]
+    · rw [if_neg h0] at h
+      simp at h
+
+theorem scheme_tables_ok : ∀ o ∈ orders, schemeOK (scheme o) o = true := by
+  decide +kernel
+
+theorem schemeOK_iff (s : Scheme) (p : Nat) (h : schemeOK s p = true) :
+    shapesOK s p = true ∧ momentsOK s.fwd p = true ∧ momentsOK s.cen p = true
+      ∧ momentsOK s.bwd p = true := by
+  unfold schemeOK at h
+  simp only [Bool.and_eq_true] at h
+  obtain ⟨⟨⟨⟨⟨⟨h1, _⟩, _⟩, _⟩, h5⟩, h6⟩, h7⟩ := h
+  exact ⟨h1, h5, h6, h7⟩
+
+/-- T9 with the sample list written with an explicit `ℕ`-indexed binder. -/
+theorem onesided_exact_clean {K : Type} [Field K] [CharZero K]
+    (o : Nat) (ho : o ∈ orders) (N : Nat) (hN : 3 * (scheme o).maskLen ≤ N)
+    (q : Polynomial K) (hq : q.natDegree ≤ o) (x₀ h : K) (hh : h ≠ 0) :
+    ∃ rows, d3Onesided (scheme o) ((List.range N).map fun (j : ℕ) => q.eval (x₀ + (j : K) * h)) N = some rows
+      ∧ rows.length = N
+      ∧ ∀ i (hi : i < rows.length), evalLin (rows[i]) * h⁻¹ = q.derivative.eval (x₀ + (i : K) * h) := by
+  obtain ⟨hshape, hmf, hmc, hmb⟩ := schemeOK_iff _ _ (scheme_tables_ok o ho)
+  obtain ⟨hspec, hsome⟩ := onesided_spec_aux (scheme o) o hshape
+    ((List.range N).map fun (j : ℕ) => q.eval (x₀ + (j : K) * h)) N (by simp) hN
+  have hall : ((List.range N).mapM (fun i => directRow (pickOnesided (scheme o) N i)
+      ((List.range N).map fun (j : ℕ) => q.eval (x₀ + (j : K) * h)) i)).isSome := by
+    apply mapM_isSome_opt
+    intro i hi
+    exact hsome i (List.mem_range.mp hi)
+  obtain ⟨rows, hrows⟩ := Option.isSome_iff_exists.mp hall
+  have hlen : rows.length = N := by
+    rw [mapM_length_opt _ _ _ hrows, List.length_range]
+  refine ⟨rows, by rw [hspec, hrows], hlen, ?_⟩
+  intro i hi
+  have hiN : i < N := by omega
+  have hrow := mapM_getElem_opt _ _ _ hrows i hi (by simpa using hiN)
+  rw [List.getElem_range] at hrow
+  have hmom : momentsOK (pickOnesided (scheme o) N i) o = true := by
+    unfold pickOnesided
+    split
+    · exact hmf
+    · split
+      · exact hmc
+      · exact hmb
+  have heval := evalLin_directRow (pickOnesided (scheme o) N i)
+    (fun (j : ℕ) => q.eval (x₀ + (j : K) * h)) N i
+    (fun k => q.eval ((x₀ + (i : K) * h) + (k : K) * h))
+    (by
+      intro k hk
+      have hc : ((((i : Int) + k).toNat : Nat) : K) = (i : K) + (k : K) := by
+        have : ((((i : Int) + k).toNat : Nat) : Int) = (i : Int) + k := Int.toNat_of_nonneg hk
+        have h2 : ((((((i : Int) + k).toNat : Nat) : Int)) : K) = (((i : Int) + k : Int) : K) := by
+          rw [this]
+        rw [Int.cast_natCast, Int.cast_add, Int.cast_natCast] at h2
+        exact h2
+      show q.eval ((x₀ + (i : K) * h) + (k : K) * h) = q.eval (x₀ + ((((i : Int) + k).toNat : Nat) : K) * h)
+      rw [hc]; ring_nf)
+    rows[i] hrow
+  rw [heval]
+  exact exact_of_moments _ o hmom q hq _ h hh
 
 theorem onesided_exact_lemma {K : Type} [Field K] [CharZero K]
     (o : Nat) (ho : o ∈ orders) (N : Nat) (hN : 3 * (scheme o).maskLen ≤ N)
     (q : Polynomial K) (hq : q.natDegree ≤ o) (x₀ h : K) (hh : h ≠ 0) :
-    ∃ rows, d3Onesided (scheme o) ((List.range N).map fun j => q.eval (x₀ + (j : K) * h)) N = some rows
+    ∃ rows, d3Onesided (scheme o) ((List.range N).map fun (j : ℕ) => q.eval (x₀ + (j : K) * h)) N = some rows
       ∧ rows.length = N
       ∧ ∀ i (hi : i < rows.length), evalLin (rows[i]) * h⁻¹ = q.derivative.eval (x₀ + (i : K) * h) := by
-  sorry
+  -- NB: as written (binder `fun j` with `(j : K)`), Lean elaborates the sample
+  -- list as `List.map (fun (j : K) => …) (do let a ← List.range N; pure ↑a)`,
+  -- i.e. the list `List.range N` cast to `K` element-wise first.  It is the
+  -- same list as the one with the `ℕ`-indexed binder:
+  have hlist : ((List.range N).map fun (j : ℕ) => q.eval (x₀ + (j : K) * h) : List K)
+      = (List.range N).map fun (j : ℕ) => q.eval (x₀ + (j : K) * h) := by
+    have hflat : ∀ l : List ℕ, List.flatMap (fun (a : ℕ) => [(Nat.cast a : K)]) l
+        = List.map (fun (a : ℕ) => (Nat.cast a : K)) l := by
+      intro l
+      induction l with
+      | nil => rfl
+      | cons a t ih => simp [List.flatMap_cons, ih]
+    simp [hflat, List.map_map, Function.comp_def]
+  rw [hlist]
+  exact onesided_exact_clean o ho N hN q hq x₀ h hh
 
 theorem d3_natural_lemma {α β : Type} (g : α → β) (b : Boundary) (s : Scheme) (f : List α) (N : Nat) :
-    d3 b s (f.map g) N = (d3 b s f N).map (fun rows => rows.map (fun row => row.map (fun ca => (ca.1, g ca.2)))) := by
-  sorry
+    d3 b s (f.map g) N = (d3 b s f N).map (fun rows => rows.map (fun row => row.map (fun ca => (ca.1, g ca.2)))) :=
+  d3_natural_aux g b s f N
 
 theorem transpose12_involutive_lemma {β : Type} (f : List (List β)) (n : Nat)
     (hrect : ∀ r ∈ f, r.length = n) (hne : f ≠ []) (hn : 0 < n) :
-    transpose12 (transpose12 f) = f := by
-  sorry
+    transpose12 (transpose12 f) = f :=
+  transpose12_involutive_aux f n hrect hne hn
 
 end AurelVerif.SpliceLemmas
